@@ -40,6 +40,12 @@ class Machine:
         self.uf_prefix = uf_prefix
         self.evals = 0
         self.taps = []  # (node index, marker, tag term, args term)
+        # marker entries with the condition (over case tags) under which the entry is reached in a run that does
+        # not fail: key (node index, input term id) -> [marker, args term, reach condition]
+        self.tap_reach = {}
+        self._coll = []      # entries (key, relative reach condition) seen by the evaluation in progress
+        self._tapmemo = {}   # eval key -> entries relative to that evaluation
+        self.tap_overflow = False
         self.jet_inputs = []  # (jet name, input term)
         self._canon_memo = {}
 
@@ -99,10 +105,41 @@ class Machine:
         key = (idx, inp.id if inp is not None else -1)
         r = self.memo.get(key)
         if r is not None:
+            if not self.tap_overflow:
+                self._coll.extend(self._tapmemo.get(key, ()))
+                if len(self._coll) > 4000:
+                    self.tap_overflow = True
             return r
+        outer = self._coll
+        self._coll = []
         r = self._eval(idx, inp)
+        mine = self._coll
+        self._coll = outer
+        if mine and not self.tap_overflow:
+            self._tapmemo[key] = mine
+            outer.extend(mine)
+            if len(outer) > 4000:
+                self.tap_overflow = True
         self.memo[key] = r
         return r
+
+    def _guard(self, mark, cond):
+        """entries collected since `mark` are only reached when cond holds"""
+        c = self._coll
+        for i in range(mark, len(c)):
+            k, rc = c[i]
+            c[i] = (k, T.and_(cond, rc))
+
+    def tap_conditions(self):
+        """after run(): {key: (marker, args, reach)} with reach = disjunction over all paths from the root"""
+        out = {}
+        for k, rc in self._coll:
+            marker, args = self.tap_reach[k]
+            if k in out:
+                out[k] = (marker, args, T.or_(out[k][2], rc))
+            else:
+                out[k] = (marker, args, rc)
+        return out
 
     def _eval(self, idx, inp):
         self.evals += 1
@@ -166,12 +203,20 @@ class Machine:
                     if tag.val:
                         return self.eval(n["r"], T.cat([pb, c]))
                     return self.eval(n["l"], T.cat([pa, c]))
+                mark = len(self._coll)
                 ol, fl = self.eval(n["l"], T.cat([pa, cl]))
+                self._guard(mark, T.not_(tag))
+                mark = len(self._coll)
                 orr, fr = self.eval(n["r"], T.cat([pb, cr]))
+                self._guard(mark, tag)
                 return T.ite(tag, orr, ol), T.ite(tag, fr, fl)
             if k == "assertl":
                 if "marker" in n:
-                    self.taps.append((idx, n["marker"], tag, T.cat([pa, c])))
+                    args = T.cat([pa, c])
+                    self.taps.append((idx, n["marker"], tag, args))
+                    key = (idx, inp.id if inp is not None else -1)
+                    self.tap_reach[key] = (n["marker"], args)
+                    self._coll.append((key, T.true()))
                 if tag.op == "c" and tag.val:
                     return self.zero(n["t"]), T.true()
                 ol, fl = self.eval(n["l"], T.cat([pa, cl]))
